@@ -245,6 +245,14 @@ fn simpler(e: &Ev, timeout: u128) -> Vec<Ev> {
                 v.push(Ev::Fork { k: 1, burst: burst.clone() });
             }
         }
+        Ev::Resets { n } => {
+            v.push(Ev::Reset);
+            for t in [2u32, n / 2, n - 1] {
+                if t >= 2 && t < *n {
+                    v.push(Ev::Resets { n: t });
+                }
+            }
+        }
         Ev::Poll { .. } | Ev::Reset | Ev::Snapshot | Ev::Restore => {}
     }
     v
